@@ -201,7 +201,7 @@ func c08Check(ctx *pbt.Ctx, c c08Case) error {
 		return fmt.Errorf("the process died executing %q on the %s store: %s", c.Text, c.Store, lastLines(out.Stderr, 14))
 	}
 	if out.Hung {
-		return fmt.Errorf("no result within %v executing %q on the %s store: %s", bqlHang, c.Text, c.Store, lastLines(out.Stderr, 14))
+		return fmt.Errorf("no result within %v and, run again in a fresh worker, within %v executing %q on the %s store: %s", bqlHang, bqlHangConfirm, c.Text, c.Store, lastLines(out.Stderr, 14))
 	}
 	res := out.Resp.Results[0]
 	ctx.Label("stage:" + res.Stage)
